@@ -75,7 +75,7 @@ def actual(body, spec):
     out = {}
     for view in spec.get("views", [{"local": None}]):
         loc = pick_local(body, view.get("local"))
-        ds = K.decision_sites(body, local=loc, ignore=IGNORE)
+        ds = K.decision_sites(body, local=loc, ignore=IGNORE, matches=bool(spec.get("matches") or view.get("matches")))
         only = view.get("only")
         ops = view.get("ops")
         rows = []
@@ -125,6 +125,7 @@ def check(R, prefix, F, spec):
         name = view.get("name", "return")
         # an op written "lt|le" marks a reviewed boundary-neutral decision (both sides yield the same value at equality)
         want = [(op, tup(r[1]), tup(r[2]), frozenset(tup(r[3])), frozenset(tup(r[4]))) for r in view["decisions"] for op in [r[0]]]
+        want = [w if w[0] not in ("if", "match") else w for w in want]
         alts = {}
         for w in list(want):
             if "|" in w[0]:
